@@ -107,7 +107,15 @@ def variance_stokes_exponential_helper(
 
         p0_est = np.asarray(n_sections * [0.0] + nt * n_sections * [8])
         # noinspection PyTypeChecker
-        a = ln.lsqr(wX, wlny, x0=p0_est, show=not suppress_info, calc_var=False)[0]
+        a = ln.lsqr(
+            wX,
+            wlny,
+            x0=p0_est,
+            show=not suppress_info,
+            calc_var=False,
+            atol=1e-16,
+            btol=1e-16,
+        )[0]
 
     beta = a[:n_sections]
     beta_expand_to_sec = np.hstack(
